@@ -47,6 +47,14 @@ class MxErr(Exception):
     pass
 
 
+def _cancelled_error_class():
+    from concurrent.futures import CancelledError
+
+    class MxCancelledErr(MxErr, CancelledError):
+        """A failure whose class happens to derive from CancelledError (e.g. re-raised from another future)."""
+    return MxCancelledErr
+
+
 def _raise_here(exc):
     """The frame every scripted exception is first raised in (C13_TracebackKept looks for it)."""
     raise exc
@@ -87,7 +95,10 @@ class Run(object):
         self.tb_seen = {}   # id(exc) -> code objects in its traceback when an error_fn first re-raised it
 
     def exc(self, eid):
-        e = MxErr("e%d" % eid)
+        if eid == EORIG and self.p.get("orig_cancelled_error"):
+            e = _cancelled_error_class()("e%d" % eid)
+        else:
+            e = MxErr("e%d" % eid)
         self.ids[id(e)] = eid
         self.keep.append(e)
         return e
@@ -236,6 +247,9 @@ class Run(object):
             starter()
             starter = None
         cur = fut
+        if p.get("proxy_input"):
+            from more_executors.futures import f_proxy
+            cur = f_proxy(fut)
         for flat, fn, efn in stages_fns:
             cur = f_flat_map(cur, fn, error_fn=efn) if flat else f_map(cur, fn, error_fn=efn)
         if starter:
